@@ -319,12 +319,20 @@ def run(ctx: Ctx):
                      f"list, never attributes: such answers leave as a bare 20-byte header without "
                      f"Origin-Host, Origin-Realm, Session-Id, Proxy-Info or Result-Code")
 
-    # ---------------- R5 the sent answer is generated per request -------------------------------------
+    # ---------------- R7 the sent answer is generated per request -------------------------------------
     from . import c07
-    ctx.include(c07.run, {"C07-R2"}, "C20-R5",
+    ctx.include(c07.run, {"C07-R2"}, "C20-R7",
                 "every answer a node handler sends is the object generated from the handled "
                 "request in the same invocation (no cached / copied template whose header is "
                 "shared between answers)", floor=8)
+
+    # ---------------- R6 the copied Proxy-Info list is the request's own ---------------------------
+    from . import c03
+    ctx.include(c03.run, {"C03-R5"}, "C20-R6",
+                "request.proxy_info, which the answer helpers copy, is a list of its own in every "
+                "typed request constructor (not one object shared with route_record / state_class "
+                "...: every value decoded into those would be copied as Proxy-Info)", floor=100,
+                constructs=lambda c: c.split("#")[0].endswith(".proxy_info"))
 
 
 def _ctor_header_stores(model) -> dict[str, set[str]]:
